@@ -63,6 +63,43 @@ def pmul(a, b):
         raise NotPoly('polynomial too large')
     return r
 
+def _lead(p):
+    """leading monomial in a fixed (lexicographic on the sorted factor tuple) order"""
+    return max(p.keys(), key=lambda m: (sum(e for _, e in m), tuple((-k, e) for k, e in m)))   # graded lex
+
+def _mdiv(m1, m2):
+    """m1 / m2 or None"""
+    d = dict(m1)
+    for k, e in m2:
+        if d.get(k, 0) < e: return None
+        d[k] -= e
+        if d[k] == 0: del d[k]
+    return tuple(sorted(d.items()))
+
+def pdivexact(p, q, limit=200000):
+    """exact multivariate division: r with p == q*r, or None"""
+    if not q: return None
+    if not p: return {}
+    lq = _lead(q); cq = q[lq]
+    r = {}
+    rem = dict(p)
+    steps = 0
+    while rem:
+        steps += 1
+        if steps > limit: return None
+        lr = _lead(rem)
+        m = _mdiv(lr, lq)
+        if m is None: return None
+        c = rem[lr] / cq
+        r[m] = r.get(m, 0) + c
+        # rem -= c*m*q
+        for mq, vq in q.items():
+            mm = mmul(m, mq)
+            v = rem.get(mm, 0) - c * vq
+            if v == 0: rem.pop(mm, None)
+            else: rem[mm] = v
+    return r
+
 def pscale(a, c):
     if c == 0: return {}
     return {m: v * c for m, v in a.items()}
@@ -89,6 +126,8 @@ class Ctx:
         self.atom_nodes = {}  # key -> node
         self.cancelled = 0
         self.track_cancel = False
+        self.polyatoms = {}
+        self.poly_names = {}
 
     def key(self, node):
         k = node.id
@@ -195,6 +234,57 @@ class Ctx:
             raise NotPoly('unresolved conditional %s' % T.show(n, 3))
         raise NotPoly('no real-arithmetic image for %s' % op)
 
+    def sqrt_poly(self, p):
+        one = pconst(1)
+        if not p:
+            return ({}, one)
+        # pull out the content (rational constant) if it is a perfect square
+        if len(p) == 1 and () in p:
+            c = p[()]
+            r = _rat_sqrt(c)
+            if r is not None:
+                return (pconst(r), one)
+        if len(p) == 1:
+            # monomial radicand: sqrt(c * prod x_i^(2 k_i)) = sqrt(c) * prod |x_i|^k_i
+            (m, c), = p.items()
+            r = _rat_sqrt(c)
+            if r is not None and all(e % 2 == 0 for _, e in m):
+                out = pconst(r)
+                for kk, e in m:
+                    out = pmul(out, ppow(self.abs_of_atom(kk), e // 2))
+                return (self.reduce(out), one)
+        key = tuple(sorted(p.items()))
+        k = self.polyatoms.get(key)
+        if k is None and len(p) > 1:
+            # sqrt(q*r) = sqrt(q)*sqrt(r): split off the polynomial of an existing root atom
+            # (both factors are non-negative wherever the roots are real)
+            for qkey, qk in list(self.polyatoms.items()):
+                if qkey and qkey[0] == 'abs': continue
+                q = dict(qkey)
+                if len(q) < 2 or len(q) > len(p): continue
+                r = pdivexact(p, q)
+                if r is not None and r:
+                    return self.rmul((patom(qk), one), self.sqrt_poly(r))
+        if k is None:
+            k = -(len(self.polyatoms) + 1)
+            self.polyatoms[key] = k
+            self.rules[k] = dict(p)
+            self.atom_nodes[k] = None
+            self.poly_names[k] = p
+        return (patom(k), one)
+
+    def abs_of_atom(self, kk):
+        """|x| for an atom x, with |x|^2 -> x^2"""
+        key = ('abs', kk)
+        k = self.polyatoms.get(key)
+        if k is None:
+            k = -(len(self.polyatoms) + 1)
+            self.polyatoms[key] = k
+            self.rules[k] = {((kk, 2),): Fraction(1)}
+            self.atom_nodes[k] = None
+            self.poly_names[k] = None
+        return patom(k)
+
     def absatom(self, x):
         """|x| with |x|^2 -> x^2"""
         node = T.call('fabs', [x], x.ty)
@@ -212,15 +302,11 @@ class Ctx:
             return self.absatom(n.args[0])
         k = self.key(n)
         if name == 'sqrt':
-            if k not in self.rules:
-                xr = self.rat(n.args[0])
-                if xr[1] == one:
-                    self.rules[k] = xr[0]
-                else:
-                    # sqrt(p/q)^2 = p/q : represent as atom s with s^2*q = p -> cannot be a
-                    # polynomial rule; keep opaque
-                    pass
-            return (patom(k), one)
+            # sqrt(N/D) = sqrt(N)/sqrt(D) (arguments of sqrt are non-negative, denominators positive:
+            # stated assumption); sqrt atoms are keyed by the *polynomial* under the root so that
+            # sqrt(v.v) reached through different expressions is one atom
+            xr = self.rat(n.args[0])
+            return self.rdiv(self.sqrt_poly(xr[0]), self.sqrt_poly(xr[1]))
         if name == 'sin':
             # sin(t)^2 -> 1 - cos(t)^2
             c = T.call('cos', list(n.args), n.ty)
@@ -229,6 +315,15 @@ class Ctx:
                 self.rules[k] = psub(one, ppow(patom(ck), 2))
             return (patom(k), one)
         return (patom(k), one)
+
+def _rat_sqrt(c):
+    from math import isqrt
+    if c < 0: return None
+    n, d = c.numerator, c.denominator
+    rn, rd = isqrt(n), isqrt(d)
+    if rn * rn == n and rd * rd == d:
+        return Fraction(rn, rd)
+    return None
 
 def abs_idiom(n):
     """ite(0 <= x, x, -x), ite(0 < x, x, -x), ite(x < 0, -x, x), ite(x <= 0, -x, x) -> x"""
@@ -255,7 +350,12 @@ def show_poly(p, ctx, limit=12):
             node = ctx.atom_nodes.get(k)
             nm = ctx.names.get(node) if node is not None else None
             if nm is None:
-                nm = T.show(node, 2, ctx.names) if node is not None else str(k)
+                if node is not None:
+                    nm = T.show(node, 2, ctx.names)
+                elif k in getattr(ctx, 'poly_names', {}):
+                    nm = ('sqrt(%s)' % show_poly(ctx.poly_names[k], ctx, 4)) if ctx.poly_names[k] is not None else '|atom|'
+                else:
+                    nm = str(k)
             fs.append(nm if e == 1 else '%s^%d' % (nm, e))
         cs = str(c)
         if fs:
